@@ -128,6 +128,14 @@ theorem src_frame_checked_before_alloc :
     readVarIntFrameCalls.idxOf "FrameTooLargeError{}" ≥ 0 ∧
     readVarIntFrameCalls.idxOf "util.ReadVarIntReturnN" < readVarIntFrameCalls.idxOf "make" := by decide
 
+open Gate.Gen.C01 in
+/-- every `Read` the frame decoder issues is a full read: the reader is wrapped in `fullReader` both by the
+    constructor and by `SetReader` (the path `EnableEncryption` takes), and `fullReader.Read` is `io.ReadFull`.
+    This is what makes the model's "function of the remaining stream" reading sound for chunked delivery. -/
+theorem src_decoder_reads_are_full :
+    "io.ReadFull" ∈ fullReaderReadCalls ∧ "fullReader" ∈ newDecoderLits ∧ "fullReader" ∈ setReaderLits := by
+  decide
+
 /-! ### non-vacuity -/
 example : wfInt32 300 ∧ wfInt32 (-5) ∧ wfInt32 2097152 := by unfold wfInt32; omega
 example : ∀ b ∈ [[1, 2], [3]], b ≠ [] ∧ b.length ≤ maxFrame := by
